@@ -150,7 +150,18 @@ class StmtMixin(object):
             st1, v = self.new_list(st, [], ty.args[0])
             yield st1.set(s.targets[0].id, v), FALL
             return
-        for st1, v in self.ev(s.value, st, fr):
+        declared = None
+        if c is not None and c.local_types and isinstance(s.value, ast.Dict) and len(s.targets) == 1 \
+                and isinstance(s.targets[0], ast.Name) and s.targets[0].id in c.local_types and not self.call_stack:
+            # a dict display takes the value type the contract declares for the local (default: the join of its values)
+            from .tys import parse_type
+            declared = parse_type(c.local_types[s.targets[0].id]).args[0]
+        self._dict_valty = declared
+        try:
+            results = list(self.ev(s.value, st, fr))
+        finally:
+            self._dict_valty = None
+        for st1, v in results:
             if isinstance(v, Raised):
                 yield st1, ('raise', v.exc)
                 continue
